@@ -108,7 +108,9 @@ def polish(th, branch, vw, vp, vm, Tp, Tm):
                 Tm_ = y[1] * Tm
                 return res(vp, math.sqrt(max(float(th.csqLowT(Tm_)), 1e-300)), y[0] * Tp, Tm_)
             sol, _info, ier, _msg = fsolve(f, [1.0, 1.0], xtol=1e-14, full_output=True)
-            err = max(abs(sol[0] - 1), abs(sol[1] - 1))
+            # the returned v- is part of the state: its distance to cs-(T-) of the exact solution counts as well
+            vm_exact = math.sqrt(max(float(th.csqLowT(sol[1] * Tm)), 1e-300))
+            err = max(abs(sol[0] - 1), abs(sol[1] - 1), abs(vm - vm_exact))
             fin = f(sol)
         r = res(vp, vm, Tp, Tm)
         return float(err), bool(max(abs(fin[0]), abs(fin[1])) < 1e-9), [float(x) for x in r]
@@ -274,3 +276,63 @@ def matching_params(r):
     c0 = r.uniform(0.2, 0.4) - c1 * Tn
     frS, frD, fm = r.uniform(0.05, 0.95), r.uniform(0.05, 0.95), r.uniform(0.05, 0.95)
     return kind, [vw, vJ, vJt, vLow, Tn, t0, t1, s0, s1, s2, s3, c0, c1, frS, frD, fm]
+
+
+# ---------------------------------------------------------------- findJouguetVelocity bracket search (Model.Jouguet)
+
+def scripted_jouguet(Tn, TMaxLow, TMaxHydro, coef):
+    """Runs the REAL Hydrodynamics.findJouguetVelocity on an object with a closed-form stub equation of state and a stub
+    root_scalar (installed from outside) that captures the residual function.  Returns (line for Driver/JouguetF, expected output)."""
+    from types import SimpleNamespace
+    import WallGo.hydrodynamics as H
+    a0, a1, a2, b0, b1, kf = coef
+    h = H.Hydrodynamics.__new__(H.Hydrodynamics)
+    h.Tnucl, h.TMaxLowT, h.TMaxHydro, h.atol, h.rtol = Tn, TMaxLow, TMaxHydro, 1e-10, 1e-6
+    # p_low(T) = a0 T^4 - a1 + a2 T^2 sin(T/Tn) ; e = T p' - p ; high phase constants at Tn
+    def pL(T):
+        return a0 * T ** 4 - a1 + a2 * Tn ** 2 * T ** 2 * math.sin(kf * T / Tn)
+
+    def dpL(T):
+        return 4 * a0 * T ** 3 + a2 * Tn ** 2 * (2 * T * math.sin(kf * T / Tn) + T ** 2 * kf / Tn * math.cos(kf * T / Tn))
+
+    def ddpL(T):
+        return 12 * a0 * T ** 2 + a2 * Tn ** 2 * (2 * math.sin(kf * T / Tn) + 4 * T * kf / Tn * math.cos(kf * T / Tn)
+                                                  - T ** 2 * (kf / Tn) ** 2 * math.sin(kf * T / Tn))
+    h.thermodynamics = SimpleNamespace(pHighT=lambda T: b0 * T ** 4, eHighT=lambda T: 3 * b0 * T ** 4 + b1 * Tn ** 4,
+                                       pLowT=pL, eLowT=lambda T: T * dpL(T) - pL(T), dpLowT=dpL, deLowT=lambda T: T * ddpL(T))
+    cap = {}
+
+    def root_scalar(f, bracket=None, method=None, x0=None, x1=None, **kw):
+        cap["f"] = f
+        if method == "brentq":
+            cap["call"] = ("brentq", bracket[0], bracket[1])
+        else:
+            cap["call"] = ("secant", x0, x1)
+        return SimpleNamespace(root=Tn * 1.5, converged=True, flag="ok")
+    saved = H.root_scalar
+    H.root_scalar = root_scalar
+    try:
+        try:
+            H.Hydrodynamics.findJouguetVelocity(h)
+        except (ValueError, ZeroDivisionError, FloatingPointError):
+            pass                   # the final sqrt of the stub state is irrelevant here
+    finally:
+        H.root_scalar = saved
+    f = cap["f"]
+    # every temperature the loop can visit, with the same float operations
+    temps = [Tn, min(max(2 * Tn, TMaxLow), TMaxHydro)]
+    while temps[-1] < TMaxHydro and len(temps) < 5000:
+        temps.append(min(temps[-1] + Tn, TMaxHydro))
+    tab = " ".join(f"{C.f2b(T)}:{C.f2b(float(f(T)))}" for T in temps)
+    line = f"jouguet {C.f2b(Tn)} {C.f2b(TMaxLow)} {C.f2b(TMaxHydro)} {tab}"
+    kind, a, b = cap["call"]
+    return line, f"{kind} {C.f2b(a)} {C.f2b(b)}"
+
+
+def jouguet_params(r):
+    Tn = 10 ** r.uniform(-1, 2)
+    TMaxLow = Tn * r.choice((1.2, 1.7, 2.5, 4.0))
+    TMaxHydro = Tn * r.choice((1.5, 3.0, 10.0, 12.5))
+    coef = (r.uniform(1, 5), r.uniform(0, 2) * Tn ** 4, r.uniform(-1, 1) * r.choice((0.0, 1.0, 5.0, 30.0)), r.uniform(2, 8), r.uniform(0.1, 2),
+            r.choice((0.7, 1.5, 3.0, 5.0)))
+    return Tn, TMaxLow, TMaxHydro, coef
